@@ -274,19 +274,20 @@ AngFn(op, a) ==
     [] OTHER -> Undef
 
 \* ---------------------------------------------------------------- interpolation      (C14)
+\* the representative of b on the side of a; when a.b = 0 exactly both are at the same distance and either may be taken
+\* (in floating point the sign of a rounded zero decides)
+NearSides(a, b) == IF Dot(a, b) = Zero THEN {b, VNeg(b)} ELSE IF RLt(Dot(a, b), Zero) THEN {VNeg(b)} ELSE {b}
 NlerpRel(a, b, t, r) ==
-  LET b2 == IF RLt(Dot(a, b), Zero) THEN VNeg(b) ELSE b
-      w  == VAdd(VScale(a, RSub(One, t)), VScale(b2, t)) IN
-  NormalizedRel(V("Quat", w), One, r)
+  \E b2 \in NearSides(a, b) :
+    LET w == VAdd(VScale(a, RSub(One, t)), VScale(b2, t)) IN NormalizedRel(V("Quat", w), One, r)
 SlerpAngles == {<<an, 1, k1, 0>> : an \in -4..4, k1 \in -8..8}
 SlerpRel(a, b, t, r) ==
-  LET d0 == Dot(a, b)
-      b2 == IF RLt(d0, Zero) THEN VNeg(b) ELSE b
-      d  == RAbs(d0) IN
-  IF RGt(d, <<9995, 10000>>) THEN NlerpRel(a, b2, t, r)             \* hand-over; the 1e-5 rad clause is checked by projection
-  ELSE IF t = Zero THEN r.t = "Quat" /\ r.c = a                      \* exact endpoints, whatever the arc
-  ELSE IF t = One THEN r.t = "Quat" /\ r.c = b2
-  ELSE \E g \in SlerpAngles :
+  LET d == RAbs(Dot(a, b)) IN
+  IF RGt(d, <<9995, 10000>>) THEN NlerpRel(a, b, t, r)              \* hand-over; the 1e-5 rad clause is checked by projection
+  ELSE \E b2 \in NearSides(a, b) :
+       IF t = Zero THEN r.t = "Quat" /\ r.c = a                      \* exact endpoints, whatever the arc
+       ELSE IF t = One THEN r.t = "Quat" /\ r.c = b2
+       ELSE \E g \in SlerpAngles :
          /\ AcosIs(g, d) /\ HasTrig(AScale(g, t))
          /\ LET tg == AScale(g, t)
                 c  == VScale(VSub(b2, VScale(a, Cos(g))), RDiv(One, Sin(g)))     \* unit, perpendicular to a, in the plane of a and b
